@@ -113,3 +113,27 @@ Proof.
   change (sort_readers (x :: l)) with (insert_reader x (sort_readers l)).
   rewrite insert_reader_filter, IH. cbn [filter]. reflexivity.
 Qed.
+
+(* ---- C11: acceptance loses no message: the readers are the selected roCreate plus the
+   others, and none of the others is a roCreate *)
+Lemma filter_split_perm {A} (f : A -> bool) l :
+  Permutation l (filter f l ++ filter (fun x => negb (f x)) l).
+Proof.
+  induction l as [|x l IH]; cbn [filter]; [apply perm_nil|].
+  destruct (f x); cbn [negb app].
+  - now apply perm_skip.
+  - now apply Permutation_cons_app.
+Qed.
+
+Theorem validate_partition rs inc rc others :
+  validate rs inc = inr (rc, others) ->
+  Permutation rs (rc :: others) /\ is_class RunningOrder rc = true /\
+  (forall r, In r others -> is_class RunningOrder r = false).
+Proof.
+  intros Hv. pose proof (validate_outcome rs inc) as Ho. rewrite Hv in Ho.
+  destruct Ho as [Hf ->]. repeat split.
+  - pose proof (filter_split_perm (is_class RunningOrder) rs) as Hp. now rewrite Hf in Hp.
+  - assert (In rc (filter (is_class RunningOrder) rs)) as Hin by (rewrite Hf; now left).
+    now apply filter_In in Hin.
+  - intros r Hr. apply filter_In in Hr. destruct Hr as [_ Hr]. now apply negb_true_iff.
+Qed.
